@@ -191,6 +191,53 @@ CHECKS = {
              "the recorded requests and delivered packets with the model.",
         note="zigpy classes by the fields read; endpoint-0 (ZDO) packets are routed elsewhere and outside the property",
         design="7/C18"),
+    "C11": dict(
+        technique="Lean 4 proof: request machine over three FIFO locks (blocking, message, transmit) with an explicit "
+                  "ready queue; lock-discipline invariant (hold flag => head of queue, phase => locks held, unique ids) "
+                  "proved for every reachable state; one-transmitter / one-ACK-waiter theorems; frame lemma; "
+                  "virtual-time differential against real ZBOSS.request tasks",
+        text="Kernel-checked for every event history: at most one request is inside the transmission of its message "
+             "(from taking the message lock to the end of its last fragment's ACK wait) and at most one awaits an ACK, "
+             "so fragments of different messages cannot interleave; task steps write only data frames of their own "
+             "request and never touch sequence number / clock / link flags; a fragment is written only from the "
+             "transmit-lock holder. Tied by comparing real request tasks (1..4 fragments, blocking or not, "
+             "cancellation, expiry, close, loss) with the model per quiescent step, plus a reference-NCP monitor "
+             "(well-formed writes, contiguous fragments, reassembled bytes == request).",
+        note=Q + "; byte-level well-formedness of each write is C05/C09",
+        design="7/C11"),
+    "C13": dict(
+        technique="Lean 4 proof: no-residue invariant (every registered listener belongs to a running request) preserved "
+                  "by every primitive, task step and event, for all reachable states; differential with cancellation / "
+                  "expiry at every phase, late and duplicate responses, follow-up requests",
+        text="Kernel-checked for every event history: every registered response listener belongs to a request that is "
+             "still running; a finished request (response, timeout, cancellation in any phase, close, loss) has none; a "
+             "response resolves the first-registered listener of its command, whose request is running; task steps "
+             "never add listeners. Tied by systematic cancel/expiry scenarios and random schedules on the real code "
+             "with a listener-count monitor and the model's attribution of every RET.",
+        note=Q,
+        design="7/C13"),
+    "C14": dict(
+        technique="Lean 4 proof: from the lock-discipline invariant: at most one blocking request is past the blocking "
+                  "lock in every reachable state; FIFO lemmas for acquire/release; non-blocking requests bypass the "
+                  "blocking lock; differential with mixed blocking / non-blocking requests",
+        text="Kernel-checked for every event history: two blocking requests are never both between taking the blocking "
+             "lock and finishing, so no frame of another blocking request can be written while one is in progress; "
+             "locks are served strictly first-in first-out; a request not marked blocking never touches the blocking "
+             "lock. Tied by the virtual-time differential and by scenario checks that a non-blocking request is "
+             "written at once while a blocking one only waits for its response.",
+        note=Q,
+        design="7/C14"),
+    "C20": dict(
+        technique="Lean 4 proof: step theorems for close / loss / start-after-close over the request machine using a "
+                  "frame lemma for task steps (only writes and completions are emitted, link flags untouched); "
+                  "differential with close / loss at every quiescent point, with and without reset, virtual completion times",
+        text="Kernel-checked: after close no listener is registered, the link is closed, every request that had a "
+             "listener has its future cancelled; a new request is refused in the same step; a second close closes and "
+             "reports nothing; a loss is reported exactly once and not at all during a reset; no other event reports a "
+             "loss or closes. The bound 'every request ends within the ACK wait after close' is checked on the real "
+             "code under the virtual clock (observation monitor) and on the model by the differential, not by a theorem.",
+        note=Q + "; termination bound after close: correspondence + monitor only (partial)",
+        design="7/C20"),
 }
 
 NOT_YET = "check not built yet in this revision of /verif (planned, see DESIGN.md section 7)"
